@@ -152,6 +152,42 @@ func c12(c *ctx) {
 				}
 			}
 			hcs = append(hcs, &hcase{cs, h, ent})
+			// 255 short inputs between two long ones, then the first long one again: whatever the parser counts per
+			// Reset (a generation, an epoch) in its integer type U comes round after 256 Resets when U is uint8;
+			// entries the short inputs never reach must still be gone
+			if i%10 == 3 || i%10 == 8 {
+				mk := func() string {
+					var l []rune
+					for k := 0; k < 6 && len(l) < 200; k++ {
+						l = append(l, gram.Derive(r, g, "R0", alpha)...)
+					}
+					if len(l) > 240 {
+						l = l[:240]
+					}
+					return string(l)
+				}
+				l1, l2 := mk(), mk()
+				var shorts []string
+				for _, in := range pool {
+					if len([]rune(in)) <= 12 {
+						shorts = append(shorts, in)
+					}
+				}
+				shorts = append(shorts, "")
+				if len(tractable(g, "R0", []string{l1, l2})) == 2 && l1 != l2 {
+					wh := []string{l1}
+					for k := 0; k < 255; k++ {
+						wh = append(wh, shorts[r.Intn(len(shorts))])
+					}
+					wh = append(wh, l2, l1, shorts[0], l2)
+					went := make([]int, len(wh))
+					for k := range went {
+						went[k] = -1
+					}
+					hcs = append(hcs, &hcase{cs, wh, went})
+					c.run.Count("histories_of_more_than_256_resets", 1)
+				}
+			}
 		}
 		if err := cp.Build(); err != nil {
 			die("corpus build: %v", err)
@@ -319,7 +355,7 @@ func c12(c *ctx) {
 		cp.Remove()
 	}
 	requireCov(c, "histories_run", "histories_with_shrink_after_success", "histories_with_success_after_failure")
-	c.run.Rule = "cases: shared-prefix and all-operator grammars (captures, actions, memo revisits; a quarter generated with -noast, whose inline action trace is compared); per grammar one history of 6-40 inputs (accepted and rejected, repeated identical inputs, a long input between short ones, the empty input in the middle; in an eighth of the grammars one input of 18 000-26 000 runes, i.e. more than 65 535 tokens; in a third some steps enter through Parse(rule) of another rule) run on ONE instance with Buffer=in; Reset(); Parse(); Execute(); AST()/SprintSyntaxTree() under U in {uint8,uint16,uint32,uint64,uint} (a step whose input has more runes than U can count is left out of that history: uint8 sees inputs of up to 255 runes) x Size in {unset,1,32768} x memo on/off, and on a fresh instance per input. " +
+	c.run.Rule = "cases: shared-prefix and all-operator grammars (captures, actions, memo revisits; a quarter generated with -noast, whose inline action trace is compared); per grammar one history of 6-40 inputs (accepted and rejected, repeated identical inputs, a long input between short ones, the empty input in the middle; in an eighth of the grammars one input of 18 000-26 000 runes, i.e. more than 65 535 tokens; in a third some steps enter through Parse(rule) of another rule; for a fifth of the grammars a second history of 260 steps: a long input, 255 short ones, another long one, the first again — one full period of anything counted per Reset in uint8) run on ONE instance with Buffer=in; Reset(); Parse(); Execute(); AST()/SprintSyntaxTree() under U in {uint8,uint16,uint32,uint64,uint} (a step whose input has more runes than U can count is left out of that history: uint8 sees inputs of up to 255 runes) x Size in {unset,1,32768} x memo on/off, and on a fresh instance per input. " +
 		"Oracle: every step equals the fresh-instance result for that input (verdict; tokens, tree, printed tree, action trace on success; error token and message on failure), fresh results are equal across U/Size and agree with the reference interpreter. " +
 		"distinct_nontrivial = distinct (grammar, history) containing at least one shorter input right after a success and one success right after a failure."
 	c.run.Assume("an input fits U when its rune count is a value of U (255 for uint8, 65 535 for uint16); inputs stay below 65 535 runes; tokens after a failed parse are not compared")
